@@ -123,6 +123,7 @@ type c18Universe struct {
 var (
 	c18Once sync.Once
 	c18U    *c18Universe
+	c18UErr error // the universe was refused by the code under test
 )
 
 func c18GetUniverse() *c18Universe {
@@ -164,7 +165,8 @@ func c18GetUniverse() *c18Universe {
 		}
 		for _, a := range u.stored {
 			if err := db.Add(a); err != nil {
-				panic(fmt.Sprintf("HARNESS: universe assertion %v refused: %v", a.Ref(), err))
+				c18UErr = fmt.Errorf("%v refused: %v", a.Ref(), err)
+				break
 			}
 		}
 		c18U = u
@@ -652,6 +654,11 @@ func c18Run(c c18Case) (verifkit.Outcome, error) {
 		return o, nil
 	}
 	u := c18GetUniverse()
+	if c18UErr != nil {
+		// every universe assertion is correctly signed by the trusted root
+		// key (or the store key) at a time when all keys are valid
+		return o, verifkit.Violatef("correctly signed founding assertion of the signing universe is not accepted: %v", c18UErr)
+	}
 	s := c18Signers[c.Signer]
 	f := c18Facts[s.key]
 	key := u.keys[s.key]
